@@ -71,6 +71,8 @@ type c13Case struct {
 	Nodes   []c13Node  `json:"nodes,omitempty"`
 	Errors  []c13PyErr `json:"validator_errors,omitempty"`
 	Detail  string     `json:"detail,omitempty"`
+	Cap     int        `json:"capacity,omitempty"`   // fault family: the target accepts this many bytes
+	Mode    string     `json:"fault_mode,omitempty"` // enospc | transient | cli-fsize
 }
 
 type c13PyErr struct {
@@ -1484,7 +1486,7 @@ func c13ModelArchive(o *vh.Oracle, r *vh.Result, c *c13Case, work, catar string,
 // ---------------------------------------------------------------- driver
 
 func runC13(a vh.Args, o *vh.Oracle, r *vh.Result) error {
-	r.Rule = "cases: (bst) item list of length n -> makeGoodbyeBST, every n in the tier's range, hashes random/duplicated/constant/monotone, non-trivial = n>=2, distinct by (n, hash shape); (sip) name -> SipHash; (archive) random tree (depth<=5, fan-out 0..300 quick / 0..5000 thorough, names over arbitrary bytes, files 0..64k, symlinks, devices, xattrs) packed from disk by the CLI and the library, or from a tar stream, then checked by the independent validator and compared with the source; non-trivial = some directory has >=2 entries, distinct by (source, nodes, dirs, max fan-out)"
+	r.Rule = "cases: (bst) item list of length n -> makeGoodbyeBST, every n in the tier's range, hashes random/duplicated/constant/monotone, non-trivial = n>=2, distinct by (n, hash shape); (sip) name -> SipHash; (archive) random tree (depth<=5, fan-out 0..300 quick / 0..5000 thorough, names over arbitrary bytes, files 0..64k, symlinks, devices, xattrs) packed from disk by the CLI and the library, or from a tar stream, then checked by the independent validator and compared with the source; non-trivial = some directory has >=2 entries, distinct by (source, nodes, dirs, max fan-out); (fault) small tree, source, fault kind (target full from byte k / one failed write at byte k), k: every k in the last 24*(fan-out+2)+64 bytes, every k for the tar-stream source, goodbye tables + a stride for the disk source, the CLI under a file size limit; Tar()==nil obliges the accepted bytes to validate and list the whole tree; non-trivial = k < archive length, distinct by (source, kind, k, length)"
 	if a.Replay != "" {
 		var c c13Case
 		if err := readJSON(a.Replay, &c); err != nil {
@@ -1499,6 +1501,12 @@ func runC13(a vh.Args, o *vh.Oracle, r *vh.Result) error {
 			return c13CheckSip(o, r, vh.UnHex(c.NameHex))
 		case "archive":
 			return c13CheckArchive(a, o, r, &c, 0)
+		case "fault":
+			mode := c.Mode
+			if mode == "cli-fsize" {
+				mode = "enospc"
+			}
+			return c13CheckFault(a, o, r, &c, 0, []int{c.Cap}, []string{mode}, false)
 		}
 		return fmt.Errorf("unknown case kind %q", c.Kind)
 	}
@@ -1640,6 +1648,12 @@ func runC13(a vh.Args, o *vh.Oracle, r *vh.Result) error {
 			return err
 		}
 	}
+	r.Note("archives done after %.1fs", time.Since(t0).Seconds())
+	// ---- write faults: success must mean a complete, well-formed archive
+	if err := c13RunFaults(a, o, r, rng.Fork(), thorough); err != nil {
+		return err
+	}
+	r.Note("faults done after %.1fs", time.Since(t0).Seconds())
 	// the casync-made fixtures of the repository must validate (checks the validator against casync)
 	repo := os.Getenv("VH_REPO")
 	if repo == "" {
